@@ -148,6 +148,8 @@ type bulkInst struct {
 	events []bulkEv
 	log    []string
 	n      int
+	// termOnly: the only question is whether every call returns (C13); contents are C11's business
+	termOnly bool
 }
 
 type bulkEv struct {
@@ -219,7 +221,7 @@ func (b *bulkInst) Apply(ev int, check bool) (string, string) {
 				} else {
 					b.ref[k] = int(ns[0])
 				}
-				if check && got != exp {
+				if check && got != exp && !b.termOnly {
 					opn := in.Op.String()
 					if in.Op == MCompute {
 						opn += "(" + fnNames[in.Fn] + ")"
@@ -238,7 +240,7 @@ func (b *bulkInst) Apply(ev int, check bool) (string, string) {
 			}
 		}
 	}
-	if !check {
+	if !check || b.termOnly {
 		return "", ""
 	}
 	st := b.m.Stats()
